@@ -643,3 +643,13 @@ Proof.
     + intro q. destruct (q_id q =? id); split; reflexivity.
   - exact Xw.
 Qed.
+
+Theorem ALL_step : forall cfg wf st sn o,
+  INV cfg wf st -> FL wf st sn -> EXI wf st ->
+  INV cfg (wf && op_okb st sn o) (fst (step cfg st o))
+  /\ FL (wf && op_okb st sn o) (fst (step cfg st o)) (track cfg st sn o)
+  /\ EXI (wf && op_okb st sn o) (fst (step cfg st o)).
+Proof.
+  intros cfg wf st sn o I F X. split; [exact (INV_step cfg wf st sn o I F)|].
+  split; [exact (FL_step cfg wf st sn o I F)|exact (EXI_step cfg wf st sn o I X)].
+Qed.
